@@ -221,6 +221,8 @@ func (r *Run) RunChild(mode string, args any, timeout time.Duration, extraEnv ..
 				r.Violation(l.K, l.S, l.Replay)
 			case "inc":
 				r.Inconclusive(l.S)
+			case "und":
+				r.Undecided(l.S)
 			case "assume":
 				r.Assume(l.S)
 			case "note":
